@@ -9,7 +9,7 @@ for f in ("patch.diff", "demo.py", "notes.md"):
 ver = open(os.path.join(src, "verify.txt")).read().strip()
 notes = open(os.path.join(src, "notes.md")).read()
 meta = dict(property=pid, breaks=pid, needs_to_manifest="see notes.md (written by the author of the change)", check_with=[pid],
-            author="independent sub-agent (round 2) that was given only the property text, a one-sentence note about the round-1 change to avoid, and a scratch worktree (nothing from /verif)",
+            author="independent sub-agent (round %s) that was given only the property text, short notes about the earlier changes to avoid, and a scratch worktree (nothing from /verif)" % os.environ.get("SEED_ROUND", "?"),
             confirmed_by_me=dict(command="tools/verify_seed.sh %s %s (fresh export of /repo HEAD outside /repo and /verif; demo without / with the change; repository suite with the change inside its own network namespace)" % (pid, src), result=ver),
             detected_by=None)
 json.dump(meta, open(os.path.join(dst, "meta.json"), "w"), indent=1)
